@@ -4273,6 +4273,7 @@ func (a *Agent) sendFileDownload(fts *fileTransferStream) {
 	for {
 		n, readErr := reader.Read(buf)
 		if n > 0 {
+			verifYieldTunnel("sendFileDownload.after-read")
 			// Encrypt file data before sending
 			encryptedData, encErr := fts.sessionKey.Encrypt(buf[:n])
 			if encErr != nil {
@@ -5154,6 +5155,7 @@ func (a *Agent) streamFileContent(ctx context.Context, peerID identity.AgentID, 
 
 		n, readErr := r.Read(buf)
 		if n > 0 {
+			verifYieldTunnel("streamFileContent.after-read")
 			// Encrypt data before sending
 			encryptedData, encErr := sessionKey.Encrypt(buf[:n])
 			if encErr != nil {
